@@ -54,7 +54,7 @@ macro_rules! slices {
     )*};
 }
 slices! {
-    0 => c24_shape_n0, c24_prefix_n0;
+    0 => c24_shape_n0, c24_prefix_n0_unused;
     1 => c24_shape_n1, c24_prefix_n1;
     2 => c24_shape_n2, c24_prefix_n2;
     3 => c24_shape_n3, c24_prefix_n3;
@@ -78,20 +78,23 @@ fn c24_small_n_all() {
     kani::cover!(n == 0);
 }
 
-#[kani::proof]
-#[kani::unwind(14)]
-fn c24_determinism() {
+fn prefix_range(lo: u16, hi: u16) {
     let h: u16 = kani::any();
     let n: u16 = kani::any();
-    let rf: u8 = kani::any();
-    let a = distribute_partition(h, n, rf);
-    let b = distribute_partition(h, n, rf);
-    assert!(a.len() == b.len(), "deterministic length");
+    let rf1: u8 = kani::any();
+    let rf2: u8 = kani::any();
+    kani::assume(n >= lo && n <= hi);
+    kani::assume(rf1 <= rf2);
+    let a = distribute_partition(h, n, rf1);
+    let b = distribute_partition(h, n, rf2);
+    assert!(a.len() <= b.len(), "smaller rf => not longer");
     let i: usize = kani::any();
     kani::assume(i < a.len());
-    assert!(a[i] == b[i], "deterministic content");
-    kani::cover!(a.len() == 12);
+    assert!(a[i] == b[i], "smaller rf yields a prefix");
+    kani::cover!(a.len() >= 2 && b.len() > a.len());
 }
+
+@SUB0@
 
 #[kani::proof]
 #[kani::unwind(14)]
